@@ -456,10 +456,12 @@ func main() {
 			addEnc(w, st, &tree{data: cv.Lit([]byte{byte(b)})}, cv.Lit(nil), seen)
 		}
 	}
+	// memory-hungry cases go to their own files ("_big": ./check evaluates those two at a time)
+	wbig := cv.NewWriter(*out, "C06_big", header, "case", "mismatches", 8)
 	if thorough {
 		for _, n := range []int{1 << 24, 1<<24 + 1, 1<<20 + 7} {
-			addEnc(w, st, &tree{data: cv.Rep(0x63, n)}, cv.Lit([]byte{0x01}), seen)
-			addEnc(w, st, &tree{list: true, kids: []*tree{{data: cv.Rep(0x63, n)}, {data: cv.Lit([]byte{0x80})}}}, cv.Lit(nil), seen)
+			addEnc(wbig, st, &tree{data: cv.Rep(0x63, n)}, cv.Lit([]byte{0x01}), seen)
+			addEnc(wbig, st, &tree{list: true, kids: []*tree{{data: cv.Rep(0x63, n)}, {data: cv.Lit([]byte{0x80})}}}, cv.Lit(nil), seen)
 		}
 	}
 	// deep nesting (depth 8) with payload crossing 55/56
@@ -613,11 +615,14 @@ func main() {
 		// 1 MiB inputs through the DSL: long string header + repeated payload, correct and off by one
 		for _, n := range []int{1 << 20, 1<<20 - 1} {
 			hdr := []byte{0xba, 0x10, 0x00, 0x00}
-			addDec(w, st, cv.Cat(cv.Lit(hdr), cv.Rep(0x41, n)), "dsl-1MiB", seen)
+			addDec(wbig, st, cv.Cat(cv.Lit(hdr), cv.Rep(0x41, n)), "dsl-1MiB", seen)
 		}
 	}
 	addDec(w, st, cv.Lit(nil), "empty", seen)
 	if err := w.Flush(); err != nil {
+		panic(err)
+	}
+	if err := wbig.Flush(); err != nil {
 		panic(err)
 	}
 
@@ -657,7 +662,7 @@ func main() {
 	st.Extra["sweep_max_len"] = map[bool]int{false: 2, true: 3}[thorough]
 	st.Extra["sweep_blocks"] = len(blocks)
 	st.Exhaustive = true
-	st.Evaluations = w.Count() + count
+	st.Evaluations = w.Count() + wbig.Count() + count
 	st.Distinct += count - 257 // every sweep input is distinct; inputs of length <= 1 counted as trivial
 	st.Rule = "trees from a shape grammar (depth<=8, string lengths at the RLP thresholds 0,1,55,56,255,256,65535,65536 and random, list payloads forced across the same thresholds) encoded and decoded back with trailing bytes; decoder inputs = structure-aware mutations of valid encodings + random bytes + every byte string of length <= sweep_max_len (exhaustive, compared per block digest). distinct = distinct (tree,trail) or input bytes; non-trivial = more than one byte of input or output"
 	st.Samples = append(st.Samples, "CEnc (DLst [DStr (BRep 98 56)]) ...", "CDec (BLit \"b90001ff\") ...")
